@@ -21,13 +21,24 @@
 (*             storage.x(key) constructs a fresh storage, insert, op(new)  *)
 (*   Get       get_*:    read lock, clone of the entry or None             *)
 (*   Delete    delete_*: write lock, remove, returns whether it existed    *)
-(*   ScanStart/ScanStep  visit_* / get_*_handles / retain_* / clear walk   *)
-(*             the shards one lock at a time (clear: counters, gauges,     *)
-(*             histograms) -- weakly consistent under concurrency, exact   *)
-(*             when nobody else modifies the registry meanwhile            *)
-(*   ScanAll   the same walk as one step (no other thread can run inside:  *)
-(*             used where the walk is not interleaved -- TLC-generated     *)
-(*             schedules and validation of recorded runs)                  *)
+(*   ScanStart/ScanStep/ScanRelease  visit_* / get_*_handles / retain_* /  *)
+(*             clear walk the shards one lock at a time (clear: counters,  *)
+(*             gauges, histograms).  The shard lock is explicit here: it   *)
+(*             is HELD from ScanStep (acquire: read lock for visit /       *)
+(*             handles, write lock for retain / clear; BLOCKING = enabled  *)
+(*             only when compatible) to ScanRelease -- the window in which *)
+(*             the caller's callback / predicate runs.  Every other        *)
+(*             critical section is enabled only when its lock mode is      *)
+(*             compatible with the locks held.  Weakly consistent under    *)
+(*             concurrency, exact when nobody else modifies meanwhile.     *)
+(*             ClearSkipsBusy = TRUE is a witness-only variant: clear      *)
+(*             takes each shard with try_write and skips a busy one.       *)
+(*   ScanAll   the same walk as one step (used where the walk is not       *)
+(*             interleaved: TLC-generated schedules, recorded runs)        *)
+(*   ScanUntilHold / ScanFinishFrom  the walk up to (and holding) a given  *)
+(*             shard, and the rest of it: recorded runs in which a         *)
+(*             callback parks inside a shard while another thread calls    *)
+(*             the registry                                                *)
 (*                                                                         *)
 (* Storage ids are handed out in construction order (nextId), exactly as   *)
 (* the harness' ProbeStorage numbers the storages it constructs.           *)
@@ -44,7 +55,8 @@ CONSTANTS
   MaxOps,     \* public calls per thread
   KeepSets,   \* retain predicates: sets of classes to keep
   OpKinds,    \* which public calls the exhaustive Next uses
-  Recheck     \* TRUE = the code; FALSE = negative control (no re-check under the write lock)
+  Recheck,    \* TRUE = the code; FALSE = negative control (no re-check under the write lock)
+  ClearSkipsBusy \* FALSE = the code (clear blocks on every shard lock); TRUE = witness: try_write, skip a busy shard
 
 Kinds  == 0..(NKinds - 1)
 Shards == 0..(NShards - 1)
@@ -53,7 +65,7 @@ VARIABLES
   shardOf,  \* the shard assignment of this behaviour (chosen once)
   shards,   \* [Kinds -> [Shards -> set of <<class, id>>]]   the hash maps
   nextId,   \* next storage id = 1 + number of storages constructed so far
-  pc,       \* [Threads -> "idle" | "gap" | "scan"]
+  pc,       \* [Threads -> "idle" | "gap" | "scan" (walking, no lock held) | "held" (walking, holds the lock of shard cur.i)]
   cur,      \* [Threads -> the call in progress]
   nops,     \* [Threads -> calls completed]
   res,      \* [Threads -> result of the last completed call]  (what the caller observed)
@@ -87,7 +99,19 @@ Lookup(k, s, c) == {e \in shards[k][s] : e[1] = c}
 ExistsAnywhere(k, c) == \E e \in Entries(k) : e[1] = c
 
 \* every thread other than u that is walking the shards has been disturbed
-Dirty(cu, u) == [t \in Threads |-> IF t # u /\ pc[t] = "scan" THEN [cu[t] EXCEPT !.dirty = TRUE] ELSE cu[t]]
+Dirty(cu, u) == [t \in Threads |-> IF t # u /\ pc[t] \in {"scan", "held"} THEN [cu[t] EXCEPT !.dirty = TRUE] ELSE cu[t]]
+
+(* shard locks (RwLock): a walking thread in pc "held" holds the lock of the shard its cursor points at, in     *)
+(* write mode for retain / clear, in read mode for visit / handles.  A thread holds at most one lock.           *)
+ScanSeq(op, k) ==
+  IF op = "clear"
+  THEN [j \in 1..(NKinds * NShards) |-> <<(j - 1) \div NShards, (j - 1) % NShards>>]
+  ELSE [j \in 1..NShards |-> <<k, j - 1>>]
+WriteMode(op) == op \in {"retain", "clear"}
+Holders(k, s) == {t \in Threads : pc[t] = "held" /\ ScanSeq(cur[t].op, cur[t].k)[cur[t].i] = <<k, s>>}
+CanRead(k, s)  == \A t \in Holders(k, s) : ~WriteMode(cur[t].op)
+CanWrite(k, s) == Holders(k, s) = {}
+CanLock(op, k, s) == IF WriteMode(op) THEN CanWrite(k, s) ELSE CanRead(k, s)
 
 Finish(t, r) ==
   /\ res' = [res EXCEPT ![t] = r]
@@ -104,7 +128,7 @@ GocYield(t, k, c, x, newly, ow) ==
                 \cup (IF ow[x] # <<k, c>> THEN {"share"} ELSE {})
 
 GocRead(t, k, c, v, s) ==
-  /\ Idle(t)
+  /\ Idle(t) /\ CanRead(k, s)
   /\ LET hit == Lookup(k, s, c) IN
      IF hit # {}
      THEN /\ \E e \in hit : GocYield(t, k, c, e[2], FALSE, owner)
@@ -115,7 +139,7 @@ GocRead(t, k, c, v, s) ==
           /\ UNCHANGED <<shardOf, shards, nextId, nops, res, owner, lastGoc>>
 
 GocWrite(t) ==
-  /\ pc[t] = "gap"
+  /\ pc[t] = "gap" /\ CanWrite(cur[t].k, cur[t].s)
   /\ LET k == cur[t].k
          c == cur[t].c
          s == cur[t].s
@@ -134,7 +158,7 @@ GocWrite(t) ==
                 /\ UNCHANGED shardOf
 
 Get(t, k, c, v, s) ==
-  /\ Idle(t)
+  /\ Idle(t) /\ CanRead(k, s)
   /\ LET hit == Lookup(k, s, c) IN
      IF hit # {}
      THEN \E e \in hit :
@@ -145,7 +169,7 @@ Get(t, k, c, v, s) ==
   /\ UNCHANGED <<shardOf, shards, nextId, cur, owner, lastGoc>>
 
 Delete(t, k, c, v, s) ==
-  /\ Idle(t)
+  /\ Idle(t) /\ CanWrite(k, s)
   /\ LET hit == Lookup(k, s, c) IN
      /\ shards' = [shards EXCEPT ![k][s] = @ \ hit]
      /\ Finish(t, [NoRes EXCEPT !.op = "del", !.k = k, !.c = c, !.ex = (hit # {})])
@@ -156,11 +180,6 @@ Delete(t, k, c, v, s) ==
 
 -----------------------------------------------------------------------------
 (* visit_* / get_*_handles / retain_* / clear: one shard lock at a time.    *)
-ScanSeq(op, k) ==
-  IF op = "clear"
-  THEN [j \in 1..(NKinds * NShards) |-> <<(j - 1) \div NShards, (j - 1) % NShards>>]
-  ELSE [j \in 1..NShards |-> <<k, j - 1>>]
-
 \* what happens to the shards `sh` while shard s of kind kk is locked
 ShardScan(sh, op, kk, s, keep) ==
   LET here == sh[kk][s]
@@ -192,40 +211,94 @@ ScanCur(op, k, keep) ==
   [NoCur EXCEPT !.op = op, !.k = k, !.keep = keep, !.i = 1,
                 !.snap = IF op = "clear" THEN {} ELSE Entries(k), !.base = nextId]
 
-\* thread t, whose walk is described by cu, locks and processes the shard cu.i points at
-ScanApply(t, cu) ==
+\* the walk of thread t (described by cu) is over: result and verdict
+ScanEnd(t, cu, acc, c0) ==
+  /\ Finish(t, [NoRes EXCEPT !.op = cu.op, !.k = cu.k, !.list = acc])
+  /\ cur' = [c0 EXCEPT ![t] = NoCur]
+  /\ bad' = bad \cup ScanVerdict(cu, acc, shards')
+
+\* thread t, whose walk is described by cu, reaches the shard cu.i points at and takes its lock (blocking), the
+\* shard's entries are handed to the callback / filtered by the predicate / dropped while the lock is held
+ScanAcquire(t, cu) ==
   LET sq == ScanSeq(cu.op, cu.k)
       kk == sq[cu.i][1]
       s  == sq[cu.i][2]
       r  == ShardScan(shards, cu.op, kk, s, cu.keep)
-      acc2 == cu.acc \cup r.seen
       mark(c0) == IF r.removed # {} THEN Dirty(c0, t) ELSE c0
-  IN /\ shards' = r.sh
-     /\ lastGoc' = ForgetRemoved(r.removed)
-     /\ IF cu.i = Len(sq)
-        THEN /\ Finish(t, [NoRes EXCEPT !.op = cu.op, !.k = cu.k, !.list = acc2])
-             /\ cur' = mark([cur EXCEPT ![t] = NoCur])
-             /\ bad' = bad \cup ScanVerdict(cu, acc2, r.sh)
-        ELSE /\ pc' = [pc EXCEPT ![t] = "scan"]
-             /\ cur' = mark([cur EXCEPT ![t] = [cu EXCEPT !.i = @ + 1, !.acc = acc2]])
-             /\ UNCHANGED <<nops, res, bad>>
-     /\ UNCHANGED <<shardOf, nextId, owner>>
+  IN IF CanLock(cu.op, kk, s)
+     THEN /\ shards' = r.sh
+          /\ lastGoc' = ForgetRemoved(r.removed)
+          /\ pc' = [pc EXCEPT ![t] = "held"]
+          /\ cur' = mark([cur EXCEPT ![t] = [cu EXCEPT !.acc = @ \cup r.seen]])
+          /\ UNCHANGED <<shardOf, nextId, owner, nops, res, bad>>
+     ELSE \* witness variant only: try_write failed, the shard is skipped and never revisited
+          /\ ClearSkipsBusy /\ cu.op = "clear"
+          /\ UNCHANGED <<shardOf, shards, nextId, owner, lastGoc>>
+          /\ IF cu.i = Len(sq)
+             THEN ScanEnd(t, cu, cu.acc, cur)
+             ELSE /\ pc' = [pc EXCEPT ![t] = "scan"]
+                  /\ cur' = [cur EXCEPT ![t] = [cu EXCEPT !.i = @ + 1]]
+                  /\ UNCHANGED <<nops, res, bad>>
 
-ScanStart(t, op, k, keep) == Idle(t) /\ ScanApply(t, ScanCur(op, k, keep))
-ScanStep(t) == pc[t] = "scan" /\ ScanApply(t, cur[t])
+ScanStart(t, op, k, keep) == Idle(t) /\ ScanAcquire(t, ScanCur(op, k, keep))
+ScanStep(t) == pc[t] = "scan" /\ ScanAcquire(t, cur[t])
 
-\* the whole walk in one step: ShardScan folded over the same shard sequence
+\* the guard of the shard is dropped; the walk goes on to the next shard or ends
+ScanRelease(t) ==
+  /\ pc[t] = "held"
+  /\ UNCHANGED <<shardOf, shards, nextId, owner, lastGoc>>
+  /\ LET cu == cur[t] IN
+     IF cu.i = Len(ScanSeq(cu.op, cu.k))
+     THEN ScanEnd(t, cu, cu.acc, cur)
+     ELSE /\ pc' = [pc EXCEPT ![t] = "scan"]
+          /\ cur' = [cur EXCEPT ![t] = [cu EXCEPT !.i = @ + 1]]
+          /\ UNCHANGED <<nops, res, bad>>
+
+\* ShardScan folded over a stretch of the shard sequence
+FoldScan(sh0, op, keep, stretch) ==
+  LET step(st, el) == LET r == ShardScan(st.sh, op, el[1], el[2], keep)
+                      IN [sh |-> r.sh, seen |-> st.seen \cup r.seen, removed |-> st.removed \cup r.removed]
+  IN FoldLeft(step, [sh |-> sh0, seen |-> {}, removed |-> {}], stretch)
+AllFree(op, stretch) == \A j \in DOMAIN stretch : CanLock(op, stretch[j][1], stretch[j][2])
+
+\* the whole walk in one step
 ScanAll(t, op, k, keep) ==
-  /\ Idle(t)
+  /\ Idle(t) /\ AllFree(op, ScanSeq(op, k))
   /\ LET cu == ScanCur(op, k, keep)
-         step(st, el) == LET r == ShardScan(st.sh, op, el[1], el[2], keep)
-                         IN [sh |-> r.sh, seen |-> st.seen \cup r.seen, removed |-> st.removed \cup r.removed]
-         fin == FoldLeft(step, [sh |-> shards, seen |-> {}, removed |-> {}], ScanSeq(op, k))
+         fin == FoldScan(shards, op, keep, ScanSeq(op, k))
      IN /\ shards' = fin.sh
         /\ lastGoc' = ForgetRemoved(fin.removed)
         /\ Finish(t, [NoRes EXCEPT !.op = op, !.k = k, !.list = fin.seen])
         /\ cur' = IF fin.removed # {} THEN Dirty(cur, t) ELSE cur
         /\ bad' = bad \cup ScanVerdict(cu, fin.seen, fin.sh)
+  /\ UNCHANGED <<shardOf, nextId, owner>>
+
+\* the walk up to shard s of kind k in one step, ending with the lock of that shard held
+ScanUntilHold(t, op, k, keep, s) ==
+  /\ Idle(t) /\ op # "clear" /\ s \in Shards
+  /\ LET sq == ScanSeq(op, k)
+         upto == SubSeq(sq, 1, s + 1)
+         fin == FoldScan(shards, op, keep, upto)
+         cu == [ScanCur(op, k, keep) EXCEPT !.i = s + 1, !.acc = fin.seen]
+     IN /\ AllFree(op, upto)
+        /\ shards' = fin.sh
+        /\ lastGoc' = ForgetRemoved(fin.removed)
+        /\ pc' = [pc EXCEPT ![t] = "held"]
+        /\ cur' = (IF fin.removed # {} THEN Dirty([cur EXCEPT ![t] = cu], t) ELSE [cur EXCEPT ![t] = cu])
+  /\ UNCHANGED <<shardOf, nextId, owner, nops, res, bad>>
+
+\* the held lock is dropped and the rest of the walk happens in one step
+ScanFinishFrom(t) ==
+  /\ pc[t] = "held"
+  /\ LET cu == cur[t]
+         sq == ScanSeq(cu.op, cu.k)
+         rest == SubSeq(sq, cu.i + 1, Len(sq))
+         fin == FoldScan(shards, cu.op, cu.keep, rest)
+         acc2 == cu.acc \cup fin.seen
+     IN /\ AllFree(cu.op, rest)
+        /\ shards' = fin.sh
+        /\ lastGoc' = ForgetRemoved(fin.removed)
+        /\ ScanEnd(t, cu, acc2, IF fin.removed # {} THEN Dirty(cur, t) ELSE cur)
   /\ UNCHANGED <<shardOf, nextId, owner>>
 
 -----------------------------------------------------------------------------
@@ -238,7 +311,7 @@ DoClear(t)  == "clear" \in OpKinds /\ ScanStart(t, "clear", 0, {})
 
 Next == \E t \in Threads :
           \/ DoGoc(t) \/ GocWrite(t) \/ DoGet(t) \/ DoDelete(t)
-          \/ DoVisit(t) \/ DoRetain(t) \/ DoClear(t) \/ ScanStep(t)
+          \/ DoVisit(t) \/ DoRetain(t) \/ DoClear(t) \/ ScanStep(t) \/ ScanRelease(t)
 
 Spec == Init /\ [][Next]_vars
 
@@ -246,7 +319,7 @@ Spec == Init /\ [][Next]_vars
 (* The property.                                                           *)
 TypeOK ==
   /\ nextId \in Nat /\ Len(owner) = nextId - 1
-  /\ \A t \in Threads : pc[t] \in {"idle", "gap", "scan"} /\ nops[t] \in 0..MaxOps
+  /\ \A t \in Threads : pc[t] \in {"idle", "gap", "scan", "held"} /\ nops[t] \in 0..MaxOps
   /\ \A k \in Kinds : \A e \in Entries(k) : e[1] \in Classes /\ e[2] \in 1..(nextId - 1)
 
 \* at every moment at most one live storage per (kind, key class)
